@@ -747,14 +747,16 @@ theorem encodeBucket_perm_invariant (l l' : GoMap) (prot : Bool) (raw : Option B
         have hbody : (if !encCfg.validate (e :: es) prot then none else
               match encodePairs encCfg (e :: es) with
               | some ps =>
-                  some (if prot then encBstr (encHead 5 (e :: es).length ++ concatPairs (sortPairs ps))
-                        else encHead 5 (e :: es).length ++ concatPairs (sortPairs ps))
+                  if prot then some (encBstr (encHead 5 (e :: es).length ++ concatPairs (sortPairs ps)))
+                  else if wellformedNoTags (encHead 5 (e :: es).length ++ concatPairs (sortPairs ps))
+                    then some (encHead 5 (e :: es).length ++ concatPairs (sortPairs ps)) else none
               | none => none) =
             (if !encCfg.validate (e' :: es') prot then none else
               match encodePairs encCfg (e' :: es') with
               | some ps =>
-                  some (if prot then encBstr (encHead 5 (e' :: es').length ++ concatPairs (sortPairs ps))
-                        else encHead 5 (e' :: es').length ++ concatPairs (sortPairs ps))
+                  if prot then some (encBstr (encHead 5 (e' :: es').length ++ concatPairs (sortPairs ps)))
+                  else if wellformedNoTags (encHead 5 (e' :: es').length ++ concatPairs (sortPairs ps))
+                    then some (encHead 5 (e' :: es').length ++ concatPairs (sortPairs ps)) else none
               | none => none) := by
           rw [hv, hlen]
           rcases encodePairs_perm encCfg _ _ hp with ⟨ps, ps', h1, h2, hperm⟩ | ⟨h1, h2⟩
